@@ -108,9 +108,41 @@ pub fn test_tree(c: &TreeCase) -> Verdict {
 pub fn run(r: &mut Runner) {
     r.rule = "generated DAGs (atoms 0..40 dense, every internal representation, shared sub-trees, doubling trees, deep spines); \
         non-trivial = has a pair and (an atom <= 36 or a shared node); distinct by tree. Oracle: hand-written SHA-256 + recursive definition. \
-        Implementations compared: tree_hash_costed, op_sha256_tree (both cost models), ObjectCache<treehash>, intern_tree().tree_hash(), tree_hash_from_stream, parse_triples hash 0 (Python leg: py/check_c22.py)."
+        Part big-atoms: 1..4 atoms of 1000..100000 bytes (dense around 4096, 8192, 65536). Implementations compared: tree_hash_costed, op_sha256_tree (both cost models), ObjectCache<treehash>, intern_tree().tree_hash(), tree_hash_from_stream, parse_triples hash 0 (Python leg: py/check_c22.py)."
         .into();
     let cfg = TreeCfg { max_nodes: 60, max_atom: 100, reprs: true, dup_atoms: 30, deep: 5000 };
     let n = r.n(20_000, 500_000);
     r.run_part("trees", n, 400, |t: &mut Tape| TreeCase { tree: gen_tree(t, &cfg) }, test_tree);
+    // atoms far beyond any internal read buffer (around 4096 / 8192 / 65536 bytes), combined with small ones
+    let n = r.n(1_500, 30_000);
+    r.run_part(
+        "big-atoms",
+        n,
+        40,
+        |t: &mut Tape| {
+            use crate::dag::Dag;
+            let mut d = Dag::new();
+            let mut items = Vec::new();
+            for _ in 0..1 + t.below(4) {
+                let len = match t.below(8) {
+                    0 => *t.pick(&[4095usize, 4096, 4097, 8191, 8192, 8193]),
+                    1 => *t.pick(&[65535usize, 65536, 65537, 100_000]),
+                    2 => t.below(40) as usize,
+                    3 => 4096 * (1 + t.below_usize(4)) + t.below_usize(3),
+                    _ => 1000 + t.below_usize(20_000),
+                };
+                let b = t.bytes(len);
+                let r = crate::r#gen::atoms::gen_repr(t);
+                items.push(d.atom_r(&b, r));
+            }
+            while items.len() > 1 {
+                let r = items.pop().unwrap();
+                let l = items.pop().unwrap();
+                let p = d.pair(l, r);
+                items.insert(t.below_usize(items.len() + 1), p);
+            }
+            TreeCase { tree: d }
+        },
+        test_tree,
+    );
 }
